@@ -25,12 +25,21 @@ NewOfKind(k, d, R, s) ==
       [] k = "DiagPDF:S" -> ANewPdf("DiagPDF", "S", d, R, s)
       [] OTHER -> ANewFactor(k, d, R, s)
 
+\* optional constructor arguments are omitted in every combination (documented defaults nu = 0, ln_beta = 0, g = 1)
+Optional(k) == IF k \in {"Measure", "DiagMeasure"} THEN {"nu", "ln_beta"}
+               ELSE IF k \in {"Factor", "Rank1", "Linear", "Const"} THEN FactorOptional(k) ELSE {}
+NewOfKindO(k, d, R, s, om) ==
+    CASE k \in {"Measure", "DiagMeasure"} -> ANewMeasureO(k, d, R, s, om)
+      [] k \in {"Factor", "Rank1", "Linear", "Const"} -> ANewFactorO(k, d, R, s, om)
+      [] OTHER -> om = {} /\ NewOfKind(k, d, R, s)
+
 Nop == Emit(heap, Step("Nop", [x |-> 0], NoObj, 0, NoObj, 0, NoObj, NoObj))
 
 Init == heap = <<>> /\ hist = <<>>
 
 Next ==
-    \/ n = 0 /\ \E d \in Ds, k \in Kinds, R \in Rs, s \in Offs : NewOfKind(k, d, R, s)
+    \/ n = 0 /\ \E d \in Ds, k \in Kinds, R \in Rs, s \in Offs :
+                   \E om \in (IF R <= 3 THEN SUBSET Optional(k) ELSE {{}}) : NewOfKindO(k, d, R, s, om)
     \/ n = 1 /\ (\/ Nop
                  \/ (heap[1].cls \in {"Measure", "DiagMeasure"} /\ AQuery(1, "integral")))
     \/ n = 2 /\ AProduct(1)
